@@ -178,3 +178,19 @@ Lemma monitor_gives_cover_complete n1 n2 D rads tol tri cover :
 Proof.
   intros H i Hi j Hj Hd. eapply cover_contract_b_sound; try eassumption. lia.
 Qed.
+
+(* ------------------------------------------------------------------ (6) a limit only cuts: with maxmatch = k > 0
+   every group is the first k rows of the group of the unlimited call (same sorter), for every cover *)
+Lemma limit_is_prefix tri n2 dis cover sorter rads n1 k i :
+  sort_contract sorter -> 0 < k ->
+  group i (match_loop dis cover sorter (init_hmap tri n2) k rads n1)
+  = firstn (Z.to_nat k) (group i (match_loop dis cover sorter (init_hmap tri n2) 0 rads n1)).
+Proof.
+  intros Hs Hk. destruct (Nat.lt_ge_cases i n1) as [Hi|Hi].
+  - rewrite !(group_loop tri n2 dis cover sorter Hs).
+    assert ((i <? n1)%nat = true) as -> by lia.
+    rewrite (rows_limited tri n2 dis cover sorter Hs) by exact Hk.
+    rewrite (rows_unlimited tri n2 dis cover sorter Hs) by lia. reflexivity.
+  - rewrite !(group_loop tri n2 dis cover sorter Hs).
+    assert ((i <? n1)%nat = false) as -> by lia. destruct (Z.to_nat k); reflexivity.
+Qed.
